@@ -129,13 +129,14 @@ def live_term(r):
         gbool(r["closed"]), gbool(r["healthy"]), gbool(r["later"]))
 
 
-def live_run(ctx, vh, classes=None):
-    """-> (rows by class index, crashed class (index, name) or None, total classes)"""
-    args = ["siodecode", "-mode", "live", "-out", os.path.join(ctx.work, "live-%s.jsonl" % (classes or "all"))]
+def live_run(ctx, vh, classes=None, par=1):
+    """-> (rows by class index, crashed class (index, name, log) or None, total classes)"""
+    args = ["siodecode", "-mode", "live", "-par", str(par),
+            "-out", os.path.join(ctx.work, "live-%s.jsonl" % (classes or "all").replace(",", "_")[:60])]
     if classes is not None:
         args += ["-classes", classes]
     rc, text = ctx.vh(vh, args, timeout=600)
-    rows, started, done, total = {}, None, set(), None
+    rows, started, done, total, all_started = {}, None, set(), None, {}
     for line in text.splitlines():
         if line.startswith("LIVE-ROW "):
             r = json.loads(line[9:])
@@ -145,12 +146,14 @@ def live_run(ctx, vh, classes=None):
         elif line.startswith("LIVE-START "):
             parts = line.split()
             started = (int(parts[1]), parts[2])
+            all_started[int(parts[1])] = parts[2]
         elif line.startswith("LIVE-DONE "):
             done.add(int(line.split()[1]))
     crashed = None
     if rc != 0:
-        if started is not None and started[0] not in done:
-            crashed = (started[0], started[1], text[-1500:])
+        open_ = [i for i in all_started if i not in done]
+        if open_:
+            crashed = (open_[-1], all_started[open_[-1]], text[-1500:])
         else:
             raise RuntimeError("live rig failed (rc=%d): %s" % (rc, text[-1500:]))
     return rows, crashed, total
@@ -158,19 +161,18 @@ def live_run(ctx, vh, classes=None):
 
 def live_suite(ctx, vh):
     rows, crashes = {}, []
-    pending = None
-    for _ in range(40):
-        got, crashed, total = live_run(ctx, vh, pending)
-        rows.update(got)
-        if crashed is None:
-            break
-        crashes.append(crashed)
-        if total is None:
-            break
-        rest = [i for i in range(crashed[0] + 1, total)]
-        if not rest:
-            break
-        pending = ",".join(map(str, rest))
+    # all classes, six at a time; if the process dies, the classes that did not finish are run again one
+    # process per class so that the crash is attributed to the class that causes it
+    got, crashed, total = live_run(ctx, vh, None, par=4)
+    rows.update(got)
+    if crashed is not None and total is not None:
+        for i in range(total):
+            if i in rows:
+                continue
+            got, c1, _ = live_run(ctx, vh, str(i))
+            rows.update(got)
+            if c1 is not None:
+                crashes.append(c1)
     for idx, cname, tail in crashes:
         ctx.count(1, nontrivial_key=("live", cname), dist="live:process-crash")
         ctx.fail_or_known("process-crash", "live: frames of class %r sent by a raw peer terminated the server process "
@@ -179,8 +181,18 @@ def live_suite(ctx, vh):
                            "log_tail": tail})
     order = sorted(rows)
     hdr = HDR
-    bad_o = set(ctx.coq_eval_cases("c10_live_oracle", hdr, [live_term(rows[i]) for i in order], "live_oracle", shard=100))
-    bad_a = set(ctx.coq_eval_cases("c10_live_agree", hdr, [live_term(rows[i]) for i in order], "live_agree", shard=100))
+    def judge(tag, idxs):
+        """-> (positions in idxs failing the oracle, positions failing the correspondence); one kernel pass when all is well"""
+        terms = [live_term(rows[i]) for i in idxs]
+        both = ctx.coq_eval_cases("c10_live_both_" + tag, hdr, terms, "(fun c => live_oracle c && live_agree c)", shard=7)
+        if not both:
+            return set(), set()
+        sub = [terms[j] for j in both]
+        bo = {both[j] for j in ctx.coq_eval_cases("c10_live_oracle_" + tag, hdr, sub, "live_oracle", shard=100)}
+        ba = {both[j] for j in ctx.coq_eval_cases("c10_live_agree_" + tag, hdr, sub, "live_agree", shard=100)}
+        return bo, ba
+
+    bad_o, bad_a = judge("all", order)
     # environmental noise (a slow connect under load) must not raise an alarm: a class that fails is run again
     # alone, twice; only a failure that reproduces every time counts
     for attempt in range(2):
@@ -193,9 +205,7 @@ def live_suite(ctx, vh):
         for i in redo:
             if i in got:
                 rows[i] = got[i]
-        terms = [live_term(rows[i]) for i in redo]
-        bo = set(ctx.coq_eval_cases("c10_live_oracle_r%d" % attempt, hdr, terms, "live_oracle", shard=100))
-        ba = set(ctx.coq_eval_cases("c10_live_agree_r%d" % attempt, hdr, terms, "live_agree", shard=100))
+        bo, ba = judge("r%d" % attempt, redo)
         ctx.indeterminate += len(redo) - len(bo | ba)
         bad_o = {order.index(redo[j]) for j in bo}
         bad_a = {order.index(redo[j]) for j in ba}
@@ -261,4 +271,4 @@ def run(ctx):
     timed("live", live_suite, ctx, vh)
     timed("exhaustive", decoder_suite, ctx, vh, "exhaustive", ["-mode", "exhaustive", "-maxlen", "3" if ctx.quick else "4", "-workers", "16"], 600)
     timed("scan", decoder_suite, ctx, vh, "scan", ["-mode", "scan", "-maxlen", "4" if ctx.quick else "6", "-workers", "16"], 600)
-    timed("mutate", decoder_suite, ctx, vh, "mutate", ["-mode", "mutate", "-seed", ctx.seed, "-n", 1000 if ctx.quick else 30000], 250)
+    timed("mutate", decoder_suite, ctx, vh, "mutate", ["-mode", "mutate", "-seed", ctx.seed, "-n", 700 if ctx.quick else 30000], 250)
